@@ -79,7 +79,7 @@ def replay_file(path):
         "import sys, json, importlib; sys.path.insert(0, %r);"
         "from symprov.stageb import replay; w = json.load(open(%r));"
         "m = importlib.import_module(w['module']); ob = [o for o in m.OBLIGATIONS if o.name == w['obligation']][0];"
-        "r = replay(ob.fn, w['witness'], dict(w['params'], tier=w.get('tier', 'quick')), ());"
+        "r = replay(ob.fn, w['witness'], dict(w['params'], tier=w.get('tier', 'quick'), prop=w['module'][-3:].upper()), ());"
         "print(json.dumps(r, default=repr)); sys.exit(1 if r['status'] == 'REFUTED' else 0)"
     ) % (os.environ.get("PROV_SRC", "/repo/src"), path)
     p = subprocess.run([PY, "-c", code], cwd=VERIF, env=env, capture_output=True, text=True)
